@@ -57,7 +57,8 @@ COMMON_ND = "value-level behaviour (element-for-element equality, arithmetic res
 PROPS = {
     "C01": {
         "rules": [BR.r_bracket, BR.r_reader_writer, BR.r_fanout, BR.r_columns, FW.r_forward,
-                  todo({"push", "index"}, ("Region", "Push")), X.r_iter_readitems],
+                  todo({"push", "index"}, ("Region", "Push")), X.r_iter_readitems,
+                  A.r_freeze, I.r_concat, CD.r_tags, CD.r_bitmap, CD.r_literal_guard],
         "explanation": "Static analysis of the un-instantiated MIR of every Push/Region impl: decides the structural necessary conditions of the round trip for all instantiations and paths, not the value equality itself.",
         "decided": [
             "R-BRACKET: every non-forwarding push of a (start,end)/position-indexed storage returns (len before its appends, len after) resp. len-1-seed, with exactly the appends on that storage in between",
@@ -67,6 +68,7 @@ PROPS = {
             "R-FORWARD: non-canonical forms forward the same value",
             "R-ITER: read-item iterators yield start..end / zip(index, columns) in order",
             "R-TODO: no push/index body is unconditionally diverging",
+            "index containers a region can be parameterised with keep push order (R-GUARD/R-CONCAT); the dictionary codec's reader and writer tables agree (R-TAGS/R-BITMAP/R-GUARD)",
         ],
         "not_decided": ["element-for-element equality of values, NaN/ZST/extreme values, panics inside std", COMMON_ND],
     },
@@ -84,7 +86,7 @@ PROPS = {
     },
     "C03": {
         "rules": [FS.r_pairing, FS.r_delegation, only(L.r_reset, {"FlatStack"}), only(L.r_clone, FS_ONLY),
-                  B.r_index_failstop, B.r_bound_stride_sites],
+                  B.r_index_failstop, B.r_bound_stride_sites, A.r_freeze, I.r_concat, I.r_stride_iter],
         "thorough": [X.witness("C03")],
         "explanation": "FlatStack's pairing of region indices with the index container and its delegation table are checked on the MIR for every R and S.",
         "decided": [
@@ -96,13 +98,15 @@ PROPS = {
         "not_decided": ["equality of yielded values (C01/C05)", COMMON_ND],
     },
     "C04": {
-        "rules": [S.r_unsafe, S.r_strwrite],
+        "rules": [S.r_unsafe, S.r_strwrite, only(BR.r_bracket, {"OwnedRegion", "ConsecutiveIndexPairs"}),
+                  BR.r_reader_writer, CD.r_tags, CD.r_bitmap, CD.r_literal_guard],
         "thorough": [X.witness("C04")],
         "explanation": "Program-text property: inventory of unchecked str constructions and of everything that can write StringRegion's byte region, over the type-checked crate.",
         "decided": [
             "R-UNSAFE: the only unchecked str construction in the crate is from_utf8_unchecked(self.inner.index(index)) in StringRegion::index; no cast produces a str",
             "R-STRWRITE: every byte push into StringRegion.inner is str::as_bytes(..) of a string-typed item; the field is private; no method hands out &mut to it; lifecycle methods only reserve/clear/clone it; DictionaryCodec::decode returns its argument or a whole dictionary entry",
             "compile-fail witnesses: pushing byte types into a StringRegion does not type-check",
+            "byte offsets are push boundaries: R-BRACKET for OwnedRegion and ConsecutiveIndexPairs, R-READER for every bracket-indexed index(); dictionary reader/writer tables agree (R-TAGS/R-BITMAP/R-GUARD), so a decoded entry is a whole pushed string",
         ],
         "not_decided": ["that the inner byte region returns exactly the pushed byte range (C01/C02 clauses)", "deserialising foreign data"],
     },
@@ -121,7 +125,7 @@ PROPS = {
     },
     "C06": {
         "rules": [HF.r_refusal, HF.r_code_source, HF.r_stats_and_arms, only(BR.r_bracket, HUFF_ONLY), c06_peel,
-                  only(L.r_reset, HUFF_ONLY), FW.r_forward],
+                  only(L.r_reset, HUFF_ONLY), FW.r_forward, HF.r_shift],
         "explanation": "Only the structural clauses of the Huffman contract are decided; exact decoding, optimality and alphabet-size behaviour are numeric and stay undecided.",
         "decided": [
             "R-REFUSE: a symbol without a code reaches only a panicking unwrap, never a substitute code",
@@ -129,18 +133,20 @@ PROPS = {
             "R-HUFF-ARMS: every canonical push counts each symbol once and stores the same symbols in the active representation",
             "R-BRACKET / R-PEEL: bit-range bracketing of push_symbols and the peel/re-emit of the partial byte",
             "R-RESET: default() and clear() fall back to raw storage with empty stats",
+            "R-SHIFT: interval analysis of every overflow-checked shift whose amount is local scalar arithmetic (%, const-, min): the amount stays below the operand width",
         ],
         "not_decided": ["exact decode at every bit alignment, code optimality, >= 1 bit per symbol (the single-symbol alphabet hangs/panics: observed, not decidable here), > 256 symbols", COMMON_ND],
     },
     "C07": {
-        "rules": [CD.r_literal_guard, CD.r_emptiness, CD.r_tags, CD.r_bitmap, only(L.r_reset, CODEC_ONLY),
-                  only(L.r_fresh, CODEC_ONLY)],
+        "rules": [CD.r_literal_guard, CD.r_emptiness, CD.r_tags, CD.r_bitmap, CD.r_stats,
+                  only(L.r_reset, CODEC_ONLY | {"DictionaryCodec"}), only(L.r_fresh, CODEC_ONLY)],
         "explanation": "Reader/writer table agreement and guard placement of the dictionary codec are decided on the MIR; selection quality of the heavy hitters is not.",
         "decided": [
             "R-GUARD: the literal store is reachable only over an edge that saw an empty input or an unassigned first byte in the reader's table",
             "R-BOUND: no positional read of the caller's slice without a non-empty guard",
             "R-TAGS: tags are assigned on the bit-clear edge, both tables are written together with the same bytes and the loop's tag, one table entry per non-exhausted iteration",
             "R-BITMAP: recording and testing the first-byte bitmap use the same word/bit functions",
+            "R-STATS: every accepted input (tag hit or literal) enters the heavy-hitter summary and the first-byte bitmap",
             "dictionary hit stores exactly the tag byte; CodecRegion::clear resets the codec; merge_regions builds it via Codec::new_from",
         ],
         "not_decided": ["heavy-hitter selection quality, Misra-Gries arithmetic", COMMON_ND],
@@ -159,9 +165,10 @@ PROPS = {
     },
     "C10": {
         "rules": [L.r_reserve_only, L.r_fresh, L.r_seed,
-                  todo({"reserve_items", "reserve_regions", "merge_regions", "reserve", "with_capacity"})],
+                  todo({"reserve_items", "reserve_regions", "merge_regions", "reserve", "with_capacity"}),
+                  CD.r_tags, CD.r_bitmap],
         "explanation": "Reserve paths may only read/measure/reserve; merged regions are built from empty-sized constructors and seeded like default().",
-        "decided": ["R-RESERVE-ONLY", "R-FRESH", "R-SEED", "R-TODO"],
+        "decided": ["R-RESERVE-ONLY", "R-FRESH", "R-SEED", "R-TODO", "for the dictionary-coded region, the merged codec's reader and writer tables agree (R-TAGS/R-BITMAP)"],
         "not_decided": ["capacity amounts (C17)"],
     },
     "C11": {
